@@ -158,4 +158,27 @@ termination_by (sizeOf ecls, 1)
 decreasing_by all_goals simp_wf <;> (first | (apply Prod.Lex.left; omega) | (apply Prod.Lex.right; omega) | omega)
 end
 
+theorem definedFuncs_eq (tree : List Stmt) : definedFuncs tree = (flat [] tree).flatMap defsOf := by
+  unfold definedFuncs
+  congr 1
+
+theorem mem_insertSorted (x y : Str) (l : List Str) : x ∈ insertSorted y l ↔ x = y ∨ x ∈ l := by
+  induction l with
+  | nil => simp [insertSorted]
+  | cons z zs ih =>
+    simp only [insertSorted]
+    split
+    · simp only [List.mem_cons, ih]
+      constructor
+      · rintro (h | h | h) <;> simp [h]
+      · rintro (h | h | h) <;> simp [h]
+    · simp
+
+theorem mem_sortStrs (x : Str) (l : List Str) : x ∈ sortStrs l ↔ x ∈ l := by
+  induction l with
+  | nil => simp [sortStrs]
+  | cons y ys ih =>
+    have : sortStrs (y :: ys) = insertSorted y (sortStrs ys) := rfl
+    rw [this, mem_insertSorted, ih]; simp
+
 end Pkgcore.C49
